@@ -53,6 +53,7 @@ def check(ctx):
     ctx.attempt(_standardize)
     ctx.attempt(_fixpoint_window)
     ctx.attempt(_index_bounds)
+    ctx.attempt(_depth_table)
     ctx.attempt(_subdivide)
     ctx.attempt(_pass_back_linear)
     ctx.attempt(forward.check_all, module_suffixes=('tract.aliquot_parse', 'tract.tract', 'tract.tract_parse'))
@@ -379,6 +380,100 @@ def _index_bounds(ctx):
                       key=f"CONSUME|{fi.qualname}|bound|{c}-{k}", where=common.loc(fi, w))
     if n == 0:
         ctx.undecided('CONSUME', 'index loops of aliquot_parse visit every position they read', 'no `while i + c < len(x)` loop recognised')
+
+
+def _depth_table(ctx):
+    """The subdivision depth parse_aliquot assigns to each component depends on
+    (position i, chain length L, qq_depth_min m, kind of component,
+    break_halves) only through comparisons, so the whole table is finite.
+    Conditional constant propagation through the loop body yields the depth
+    for every case with L, m <= 4; it must equal what the property asks for:
+    a half / ALL is split once iff it is among the m largest components or
+    break_halves is on, and when the chain is shorter than m its smallest
+    component is split (m - L) further levels."""
+    from .. import ccp
+    fi = ctx.repo.func('aliquot_parse:parse_aliquot')
+    loops = [n for n in walk_local(fi.node) if isinstance(n, ast.For) and isinstance(n.iter, ast.Call)
+             and dotted(n.iter.func) == 'enumerate' and any(isinstance(x, ast.Name) and x.id == 'depth' and isinstance(x.ctx, ast.Store)
+                                                             for x in ast.walk(n))]
+    construct = 'parse_aliquot: depth of every component for all (position, length, min depth, kind, break_halves)'
+    if len(loops) != 1:
+        ctx.undecided('RANGE', construct, 'depth loop not recognised')
+        return
+    loop = loops[0]
+    tg = loop.target
+    if not (isinstance(tg, ast.Tuple) and len(tg.elts) == 2 and all(isinstance(e, ast.Name) for e in tg.elts)):
+        ctx.undecided('RANGE', construct, 'loop target is not (i, comp)')
+        return
+    iname, cname = tg.elts[0].id, tg.elts[1].id
+    start = 0
+    for k in loop.iter.keywords:
+        if k.arg == 'start' and isinstance(k.value, ast.Constant):
+            start = k.value.value
+    if len(loop.iter.args) > 1 and isinstance(loop.iter.args[1], ast.Constant):
+        start = loop.iter.args[1].value
+    seq = norm(loop.iter.args[0])
+    stmts = [st for st in loop.body if any(isinstance(x, ast.Name) and x.id == 'depth' and isinstance(x.ctx, ast.Store)
+                                          for x in ast.walk(st))]
+    halves = ctx.fold.get('aliquot_parse', 'QQ_HALVES')
+    quarters = ctx.fold.get('aliquot_parse', 'QQ_QUARTERS')
+    base_env = {'QQ_HALVES': tuple(halves), 'QQ_QUARTERS': tuple(quarters)}
+    for nm in ('_ALL', 'ALL'):
+        try:
+            base_env[nm] = ctx.fold.get('aliquot_parse', nm)
+        except Exception:
+            pass
+    # helpers of the module that the loop body calls are propagated through
+    for f2 in ctx.repo.funcs.values():
+        if f2.module is fi.module and f2.outer is None and f2.cls is None and f2 is not fi:
+            base_env.setdefault(f2.node.name, ccp.FuncRef(f2.node, base_env))
+    n = bad = 0
+    first_bad = None
+    for L in range(1, 5):
+        for m in range(1, 5):
+            for pos in range(1, L + 1):
+                for kind, comp in (('half', 'N'), ('quarter', 'NE'), ('ALL', base_env.get('_ALL', 'ALL'))):
+                    if kind == 'ALL' and L != 1:
+                        continue            # ALL only ever stands alone
+                    for bh in (False, True):
+                        env = dict(base_env)
+                        env.update({iname: pos - 1 + start, cname: comp, 'qq_depth_min': m, 'break_halves': bh,
+                                    seq: tuple(['x'] * L)})
+                        try:
+                            needed = {x.id for st in stmts for x in ast.walk(st) if isinstance(x, ast.Name)
+                                      and isinstance(x.ctx, ast.Load)} - set(env)
+                            if needed:
+                                # locals computed before the loop (hoisted lengths etc.)
+                                for st0 in fi.node.body:
+                                    if st0 is loop:
+                                        break
+                                    if isinstance(st0, ast.Assign) and len(st0.targets) == 1 and isinstance(st0.targets[0], ast.Name) \
+                                            and st0.targets[0].id in needed:
+                                        try:
+                                            env[st0.targets[0].id] = ccp.ev(st0.value, env)
+                                        except ccp.Unsupported:
+                                            pass
+                            ccp.block(stmts, env, [0], 500)
+                            got = env.get('depth')
+                        except ccp.Unsupported as e:
+                            ctx.undecided('RANGE', construct, f"not propagated ({e})")
+                            return
+                        n += 1
+                        want = (1 if kind != 'quarter' and (pos <= m or bh) else 0) + ((m - L) if (pos == L and L < m) else 0)
+                        if kind == 'ALL' and comp not in halves and not (pos <= m or bh) and isinstance(got, int) and got <= 0:
+                            got = 0
+                        if max(got if isinstance(got, int) else -99, 0) != want:
+                            bad += 1
+                            first_bad = first_bad or (L, m, pos, kind, bh, got, want)
+    if bad:
+        L, m, pos, kind, bh, got, want = first_bad
+        ctx.violation('RANGE', construct,
+                      f"{bad} of {n} cases differ from the depth the property requires; e.g. a chain of {L} component(s), "
+                      f"qq_depth_min={m}, component #{pos} (a {kind}), break_halves={bh}: depth {got} instead of {want} "
+                      f"(pieces come out shallower than the minimum / deeper than asked for / halves are left whole)",
+                      key=f"RANGE|parse_aliquot|depth-table|{L}.{m}.{pos}.{kind}.{int(bh)}", where=common.loc(fi, loop))
+    else:
+        ctx.ok('RANGE', construct, f"{n} cases propagated, all as required")
 
 
 def _subdivide(ctx):
